@@ -416,6 +416,17 @@ impl<'a> From<Piece<'a>> for Chunk {
                     {
                         return Chunk::Error(format!("invalid date format `{}`", format));
                     }
+                    // some items are understood by the format parser but cannot be
+                    // formatted (`%#z`): formatting would fail for every record
+                    {
+                        use std::fmt::Write as _;
+                        let mut probe = String::new();
+                        if write!(probe, "{}", Utc::now().format(&format)).is_err()
+                            || write!(probe, "{}", Local::now().format(&format)).is_err()
+                        {
+                            return Chunk::Error(format!("invalid date format `{}`", format));
+                        }
+                    }
 
                     let timezone = match formatter.args.get(1) {
                         Some(arg) => {
